@@ -95,3 +95,7 @@ pub const %(hconst)s: usize = %(hsize)d;
 
 UNITS = {k[0]: unit_for(*k) for k in LAYERS}
 UNIT = UNITS["tcp"]
+
+# the pcap record serialiser (same rewrite rules); imported last: pkt_unit needs RW / SER_RW from this module
+from . import pkt_unit as _pkt_unit  # noqa: E402
+UNITS["pkt"] = _pkt_unit.UNIT
